@@ -349,26 +349,30 @@ Proof.
   split; [apply roots_okb_sound; vm_compute; reflexivity|]. vm_compute. repeat split; reflexivity.
 Qed.
 
-(* ---- hypotheses of linker_init_shares_only_submodels are satisfiable: two model instances, then Linker({601: a, 603: b});
-   the linker class (location 8) and the model class (location 4) are separate from both submodels *)
+(* ---- hypotheses of linker_init_shares_only_submodels are satisfiable: two model instances (locations 9 and 21), then
+   Linker({601: a, 603: b}); the linker class (location 8) and the model class (location 4) are separate from both submodels *)
 Definition s_pre : state :=
   run_events K0 (mkSt (class_heap 0 None ++ linker_class) [4%nat; 8%nat]) [EInit 0 (args list_span); EInit 0 (args list_span)].
-Definition lk_cells : list (Z * val) := [(601, VR (nth 2 (sroots s_pre) O)); (603, VR (nth 3 (sroots s_pre) O))].
+Definition lk_cells : list (Z * val) := [(601, VR 9%nat); (603, VR 21%nat)].
+
+Lemma s_pre_roots : sroots s_pre = [4%nat; 8%nat; 9%nat; 21%nat].
+Proof. vm_compute. reflexivity. Qed.
 
 Example ex_linker_init_hypotheses :
-  let h := sh s_pre in
-  wf h /\ (forall l, In l (refs (mkObj KDict lk_cells)) -> (l < length h)%nat) /\
-  snd (init_M (h ++ [mkObj KDict lk_cells]) 8%nat K0 (linker_iargs (h ++ [mkObj KDict lk_cells]) K0 (length h) 117)) = true /\
-  (forall k x, In (k, VR x) lk_cells -> sep h x 8%nat /\ sep h x 4%nat).
+  wf (sh s_pre) /\ (forall l, In l (refs (mkObj KDict lk_cells)) -> (l < length (sh s_pre))%nat) /\
+  snd (init_M (sh s_pre ++ [mkObj KDict lk_cells]) 8%nat K0
+              (linker_iargs (sh s_pre ++ [mkObj KDict lk_cells]) K0 (length (sh s_pre)) 117)) = true /\
+  (forall k x, In (k, VR x) lk_cells -> sep (sh s_pre) x 8%nat /\ sep (sh s_pre) x 4%nat).
 Proof.
   assert (RO : roots_ok s_pre) by (apply roots_okb_sound; vm_compute; reflexivity).
-  destruct RO as (W & _ & Sp).
+  destruct RO as (W & _ & Sp). rewrite s_pre_roots in Sp.
+  assert (L : length (sh s_pre) = 33%nat) by (vm_compute; reflexivity).
   split; [exact W|]. split.
-  - intros l Hl. vm_compute in Hl. vm_compute. destruct Hl as [<-|[<-|[]]]; lia.
+  - intros l Hl. rewrite L. cbn in Hl. destruct Hl as [<-|[<-|[]]]; lia.
   - split; [vm_compute; reflexivity|].
-    intros k x Hin. destruct Hin as [E|[E|[]]]; inversion E; subst; split.
-    + apply (Sp 2%nat 1%nat); [discriminate | reflexivity | reflexivity].
-    + apply (Sp 2%nat 0%nat); [discriminate | reflexivity | reflexivity].
-    + apply (Sp 3%nat 1%nat); [discriminate | reflexivity | reflexivity].
-    + apply (Sp 3%nat 0%nat); [discriminate | reflexivity | reflexivity].
+    intros k x Hin. cbn [lk_cells In] in Hin. destruct Hin as [E|[E|[]]]; inversion E; subst x; split.
+    + apply (Sp 2%nat 1%nat 9%nat 8%nat); [discriminate | reflexivity | reflexivity].
+    + apply (Sp 2%nat 0%nat 9%nat 4%nat); [discriminate | reflexivity | reflexivity].
+    + apply (Sp 3%nat 1%nat 21%nat 8%nat); [discriminate | reflexivity | reflexivity].
+    + apply (Sp 3%nat 0%nat 21%nat 4%nat); [discriminate | reflexivity | reflexivity].
 Qed.
